@@ -330,6 +330,7 @@ pub open spec fn numel_part(nv: Seq<usize>) -> Seq<Item> {
     else if c <= 5 { seq![cell(" numel = ("@, seq![])] + numel_cells(nv, c - 1) + seq![cell("{})"@, seq![FmtVal::U(nv[c - 1] as nat)])] }
     else { seq![cell(" numel = ("@, seq![])] + numel_cells(nv, 4) + seq![cell("...,{})"@, seq![FmtVal::U(nv[c - 1] as nat)])] }
 }
+#[verifier::opaque]
 pub open spec fn cone_line(cs: Seq<SupportedCone<F>>, tag: SupportedConeTag) -> Seq<Item> {
     let nv = numels_of(cs, tag);
     if nv.len() == 0 { Seq::<Item>::empty() }
@@ -385,6 +386,7 @@ pub open spec fn threads_part(n: usize) -> Seq<Item> {
     else if n == 1 { seq![cell("(1 thread)"@, seq![])] }
     else { seq![cell("({nthreads} threads)"@, seq![FmtVal::U(n as nat)])] }
 }
+#[verifier::opaque]
 pub open spec fn settings_head(ls: LinearSolverInfo) -> Seq<Item> {
     seq![
         line("settings:"@, seq![]),
@@ -393,6 +395,7 @@ pub open spec fn settings_head(ls: LinearSolverInfo) -> Seq<Item> {
         cell("precision: {} bit "@, seq![FmtVal::S(precision_text())]),
     ]
 }
+#[verifier::opaque]
 pub open spec fn settings_tail(set: DefaultSettings<F>) -> Seq<Item> {
     seq![
         line(""@, seq![]),
@@ -467,6 +470,7 @@ impl SupportedConeTag {
 //@pre
     let ghost cs = cones.cones@;
     let ghost it0 = out.items();
+    proof { reveal(cone_line); }
 //@iter 1
 it
 //@loop 1
@@ -496,7 +500,7 @@ it
             invariant nv == nvars@, nv.len() > 5, it.seq().len() == 4, forall|k: int| 0 <= k < 4 ==> *(#[trigger] it.seq()[k]) == nv[k],
                 out.kind() == old(out).kind(), out.items() =~= b3 + numel_cells(nv, it.index@ as int),
 //@post
-    proof { assert(out.items() =~= it0 + cone_line(cs, conetag)); }
+    proof { reveal(cone_line); assert(out.items() =~= it0 + cone_line(cs, conetag)); }
 //@end
 
 impl DefaultInfo<F> {
@@ -508,12 +512,15 @@ impl DefaultInfo<F> {
     proof { ax_float_size(); }
     let ghost it0 = self.stream.items();
     let ghost ls = self.linsolver;
-    let ghost mut g1 = it0;
+    let ghost mut g1 = it0; let ghost mut g2 = it0;
 //@after_stmt 7
-    proof { g1 = out.items(); assert(g1 =~= it0 + (settings_head(ls) + threads_part(ls.threads))); }
+    proof { reveal(settings_head); g1 = out.items(); assert(g1 =~= it0 + (settings_head(ls) + threads_part(ls.threads))); }
+//@after_stmt 13
+    proof { reveal(settings_tail); g2 = out.items(); assert(g2 =~= g1 + settings_tail(*settings).subrange(0, 5)); }
 //@post
     proof {
-        assert(self.stream.items() =~= g1 + settings_tail(*settings));
+        assert(self.stream.items() =~= g2 + settings_tail(*settings).subrange(5, 11)) by { reveal(settings_tail); }
+        assert(self.stream.items() =~= g1 + settings_tail(*settings)) by { reveal(settings_tail); }
         assert(self.stream.items() =~= it0 + settings_block(*settings, ls));
     }
 //@end
